@@ -292,7 +292,7 @@ def render_blocks_ff(blocks):
     for b in blocks:
         out += ["[ moleculetype ]", "%s %d" % (b["name"], b["nrexcl"]), "[ atoms ]"]
         for i, a in enumerate(b["atoms"], 1):
-            out.append("%d %s %d %s %s %d %r %r" % (i, a["atype"], a["rid"], a["resname"], a["name"], a["cg"],
+            out.append("%d %s %d %s %s %d %r %r" % (i, a["atype"], a["rid"] + b.get("resnr_offset", 0), a["resname"], a["name"], a["cg"],
                                                     a["charge"], a["mass"]))
         cur = None
         for it in b["inter"]:
@@ -359,7 +359,7 @@ def render_blocks_itp(blocks):
     for b in blocks:
         out += ["[ moleculetype ]", "%s %d" % (b["name"], b["nrexcl"]), "[ atoms ]"]
         for i, a in enumerate(b["atoms"], 1):
-            out.append("%d %s %d %s %s %d %r %r" % (i, a["atype"], a["rid"], a["resname"], a["name"], a["cg"],
+            out.append("%d %s %d %s %s %d %r %r" % (i, a["atype"], a["rid"] + b.get("resnr_offset", 0), a["resname"], a["name"], a["cg"],
                                                     a["charge"], a["mass"]))
         # group by (section, conditional)
         order = []
